@@ -71,6 +71,8 @@ WHAT_RAISE = "C10 MP4: save failed on a well-formed file"
 WHAT_LOAD = "C10 MP4: file no longer loads or reads back different tags after save"
 WHAT_FOREIGN = "C10 MP4: atoms outside the tag region changed"
 WHAT_TABLES = "C10 MP4: offset tables changed shape"
+WHAT_DELPAD = "C10 MP4: delete leaves padding behind (ilst + adjacent free atom not replaced by the 16-byte empty structure)"
+WHAT_CBARGS = "C10 MP4: padding callback not called with (room left in the tag region, bytes behind the region)"
 
 
 # ------------------------------------------------------------------ independent Python twin of the model's builder
@@ -130,10 +132,14 @@ def _specs(l, base):
                 _node(b"minf", 32, [_node(b"stbl", _sz(big, 64), [tab])])])])
     def moof(m):
         fl, rel, tail = m
-        if fl:
-            p = b"\0\0\0\1" + struct.pack(">I", 1) + ((base + rel) % 2 ** 64).to_bytes(8, "big") + _pat(tail, 3)
-        else:
-            p = b"\0\0\0\0" + struct.pack(">I", 1) + _pat(tail, 3)
+        fl = int(fl)
+        p = b"\0" + fl.to_bytes(3, "big") + struct.pack(">I", 1)
+        if _bit(fl, 1):
+            p += ((base + rel) % 2 ** 64).to_bytes(8, "big")
+        for bit, seed in ((2, 21), (8, 22), (16, 23), (32, 24)):
+            if _bit(fl, bit):
+                p += _pat(4, seed)
+        p += _pat(tail, 3)
         return _node(b"moof", _sz(big, 128), [_leaf(b"mfhd", 32, b"\0" * 8), _node(b"traf", 32, [_leaf(b"tfhd", 32, p)])])
     def udta():
         if l["udta"] == 0:
@@ -147,10 +153,11 @@ def _specs(l, base):
     def moov(sz):
         traks = [trak(t) for t in l["traks"]]
         return _node(b"moov", sz, [_leaf(b"mvhd", 32, _pat(24, 9))] + (udta() + traks if l["udta_first"] else traks + udta()))
-    endfree = [_leaf(b"free", 32, b"\0" * 24)] if _bit(l["topfree"], 2) else []
+    mdat2 = l.get("mdat2", b"")
+    endfree = ([_leaf(b"mdat", 32, mdat2)] if mdat2 else []) + ([_leaf(b"free", 32, b"\0" * 24)] if _bit(l["topfree"], 2) else [])
     moofs = [moof(m) for m in l["moofs"]]
     head = [_leaf(b"ftyp", 32, b"isom\0\0\0\0isom")] + ([_leaf(b"free", 32, b"\0" * 16)] if _bit(l["topfree"], 1) else [])
-    last0 = l["size0"] and not _bit(l["topfree"], 2)
+    last0 = l["size0"] and not _bit(l["topfree"], 2) and not mdat2
     if l["moov_first"]:
         return head + [moov(_sz(big, 1))] + moofs, [_leaf(b"mdat", 0 if last0 else _sz(big, 8), l["mdat"])] + endfree
     return head + moofs, [_leaf(b"mdat", _sz(big, 8), l["mdat"]), moov(0 if last0 else _sz(big, 1))] + endfree
@@ -158,7 +165,7 @@ def _specs(l, base):
 
 def py_build(l):
     pre0, _ = _specs(l, 0)
-    last0 = l["size0"] and not _bit(l["topfree"], 2)
+    last0 = l["size0"] and not _bit(l["topfree"], 2) and not l.get("mdat2", b"")
     mh = 8 if (l["moov_first"] and last0) else (16 if _bit(l["big"], 8) else 8)
     base = len(b"".join(pre0)) + mh
     pre, post = _specs(l, base)
@@ -180,14 +187,16 @@ def mdat_bytes(n, seed):
 
 def base_layout(**kw):
     l = dict(moov_first=True, udta=2, udta_first=False, udta_extra=-1, meta=[("h",), ("i",)], ilst=mk_ilst(5),
-             traks=[(False, True, [0, 33, 100])], moofs=[], mdat_gen=(300, 3), big=0, topfree=0, size0=False)
+             traks=[(False, True, [0, 33, 100])], moofs=[], mdat_gen=(300, 3), big=0, topfree=0, size0=False,
+             mdat2_gen=None, m2_entries=None, m2_moofs=None)
     l.update(kw)
     l["mdat"] = mdat_bytes(*l["mdat_gen"])
+    l["mdat2"] = mdat_bytes(*l["mdat2_gen"]) if l["mdat2_gen"] else b""
     return l
 
 
 METAS = [[("h",), ("i",)], [("h",), ("i",), ("f", 40)], [("h",), ("f", 64), ("i",)], [("h",), ("f", 16), ("i",), ("f", 32)],
-         [("h",), ("f", 100), ("f", 30), ("i",)],
+         [("h",), ("f", 100), ("f", 30), ("i",)], [("h",), ("f", 64), ("i",), ("o", 12)],
          [("i",), ("f", 0)], [("i",)], [("f", 2000), ("i",), ("o", 12)], [("h",), ("i",), ("o", 9), ("f", 30)],
          [("h",), ("o", 5), ("i",), ("f", 1500)]]
 NONADJ_META = [("i",), ("h",), ("f", 50)]
@@ -203,6 +212,35 @@ def regression_layouts():
         ("reg-nonadjacent-free", base_layout(meta=NONADJ_META)),
         ("reg-nonadjacent-free-2", base_layout(meta=[("i",), ("o", 100), ("h",), ("f", 20)], moov_first=False)),
     ]
+
+
+TF_FLAGS = [0x000001, 0x020001, 0x000011, 0x010039, 0x020000, 0x00003B, 0x030001, 0x000000]
+
+
+def flag_layouts():
+    """tfhd atoms with every mix of tf_flags (optional fields present): the base offset follows whenever bit 0 is set"""
+    out = []
+    for i, mf in enumerate((True, False)):
+        out.append(("flags-%d" % i, base_layout(moov_first=mf, moofs=[(fl, 7 + 11 * k, k % 3) for k, fl in enumerate(TF_FLAGS)],
+                                                 meta=[("h",), ("i",), ("f", 24)] if mf else [("h",), ("i",)], big=(128 if mf else 0))))
+    return out
+
+
+def straddle_layouts():
+    """media data on both sides of moov (ftyp, mdat, moov, mdat): tables whose entries lie partly before and partly behind
+    moov, in both orders (first entry before / first entry behind), stco and co64; tfhd bases on both sides"""
+    out = []
+    n = 0
+    for meta in ([("h",), ("i",)], [("h",), ("i",), ("f", 40)], [("h",), ("f", 64), ("i",), ("o", 12)]):
+        for first in (False, True):
+            n += 1
+            out.append(("straddle-%d" % n, base_layout(
+                moov_first=False, meta=meta, mdat2_gen=(220, 40 + n),
+                traks=[(n % 2 == 0, True, [0, 33, 100]), (n % 2 == 1, False, [150, 299])],
+                m2_entries={0: ([5, 64, 219], first), 1: ([0, 120], not first)},
+                moofs=[(0x020001, 20, 0)] if n % 3 == 0 else [], m2_moofs=[(1, 50, 0), (0x020001, 99, 2)] if n % 3 == 0 else None,
+                big=[0, 8, 1][n % 3], topfree=n % 2)))
+    return out
 
 
 def core_layouts():
@@ -244,31 +282,46 @@ def random_layout(rng, i):
         moov_first=rng.random() < 0.5, udta={0: 0, 1: 1, 2: 2, 3: 2}[tagmode], udta_first=rng.random() < 0.3,
         udta_extra=rng.choice([-1, -1, 0, 21]), meta=meta, ilst=mk_ilst(rng.choice([-1, 0, 3, 700])),
         traks=[(rng.random() < 0.5, rng.random() < 0.7, entries()) for _ in range(ntr)],
-        moofs=[(rng.random() < 0.8, rng.randrange(mlen), rng.choice([0, 0, 5])) for _ in range(rng.choice([0, 0, 1, 2, 3]))],
+        moofs=[(rng.choice(TF_FLAGS), rng.randrange(mlen), rng.choice([0, 0, 5])) for _ in range(rng.choice([0, 0, 1, 2, 3]))],
         mdat_gen=(mlen, i), big=rng.choice([0, 0, 1, 2, 4, 8, 16, 32, 64, 128, rng.randrange(256)]),
         topfree=rng.randrange(4), size0=rng.random() < 0.15))
 
 
 def with_boundary_entries(l):
     """add to the first trak one entry at the start of the tag region and one inside ftyp, and (when the layout has moof atoms)
-    one more moof whose tfhd base offset is the start of the tag region; positions are found with the independent walker"""
+    one more moof whose tfhd base offset is the start of the tag region; resolve the entries / tfhd bases that are to point
+    into the second mdat (m2_entries / m2_moofs); positions are found with the independent walker"""
     l2 = dict(l)
-    n_tr = len(l["traks"][0][2]) if l["traks"] else 0
-    n_mf = len(l["moofs"])
-    for _ in range(4):
+    base_tr = [list(es) for _, _, es in l["traks"]]
+    base_mf = list(l["moofs"])
+    m2e = l.get("m2_entries") or {}
+    m2m = l.get("m2_moofs") or []
+    for _ in range(5):
         d, base = py_build(l2)
         try:
             reg = CM.region_of(d)
         except W.Bad:
             reg = None
         extra = [4 - base] + ([reg[0] - base] if reg is not None else [])
-        tr = list(l2["traks"])
-        if tr:
-            c, s, es = tr[0]
-            tr[0] = (c, s, list(es[:n_tr]) + extra)
-        mf = list(l2["moofs"][:n_mf])
-        if mf and reg is not None:
-            mf.append((True, reg[0] - base, 0))
+        p2 = None
+        if l.get("mdat2"):
+            tops = [a for a in W.mp4_atoms(d) if a["name"] == b"mdat"]
+            p2 = tops[1]["off"] + tops[1]["hdr"]
+        tr = []
+        for i, (c, s, _) in enumerate(l["traks"]):
+            es = list(base_tr[i])
+            if i in m2e and p2 is not None:
+                ks, first = m2e[i]
+                m2 = [p2 + k - base for k in ks]
+                es = m2 + es if first else es + m2
+            if i == 0:
+                es = es + extra
+            tr.append((c, s, es))
+        mf = list(base_mf)
+        if p2 is not None:
+            mf += [(fl, p2 + k - base, t) for fl, k, t in m2m]
+        if base_mf and reg is not None:
+            mf.append((1, reg[0] - base, 0))
         nxt = dict(l2, traks=tr, moofs=mf)
         if nxt == l2:
             break
@@ -283,17 +336,19 @@ def coq_layout(l):
         return "[" + ";".join("(%d)" % x for x in xs) + "]"
     meta = "[" + ";".join({"h": "MHdlr", "i": "MIlst"}.get(m[0]) or ("MFree %d" % m[1] if m[0] == "f" else "MOther %d" % m[1]) for m in l["meta"]) + "]"
     traks = "[" + ";".join("mkTrak %s %s %s" % (b(c), b(s), zl(es)) for c, s, es in l["traks"]) + "]"
-    moofs = "[" + ";".join("mkMoof %s (%d) %d" % (b(f), r, t) for f, r, t in l["moofs"]) + "]"
-    return "(mkLayout %s %d %s (%d) %s %s %s %s %s %d %d %s)" % (
+    moofs = "[" + ";".join("mkMoof %d (%d) %d" % (int(f), r, t) for f, r, t in l["moofs"]) + "]"
+    return "(mkLayout %s %d %s (%d) %s %s %s %s %s %d %d %s %s)" % (
         b(l["moov_first"]), l["udta"], b(l["udta_first"]), l["udta_extra"], meta, coq_bytes(l["ilst"]), traks, moofs,
-        coq_bytes(l["mdat"]), l["big"], l["topfree"], b(l["size0"]))
+        coq_bytes(l["mdat"]), l["big"], l["topfree"], b(l["size0"]), coq_bytes(l.get("mdat2", b"")))
 
 
 def jlayout(l):
     d = dict(l)
     d["ilst"] = l["ilst"].hex()
     del d["mdat"]
+    d.pop("mdat2", None); d.pop("m2_entries", None); d.pop("m2_moofs", None)      # already resolved into traks / moofs
     d["mdat_gen"] = list(l["mdat_gen"])
+    d["mdat2_gen"] = list(l["mdat2_gen"]) if l.get("mdat2_gen") else None
     d["meta"] = [list(m) for m in l["meta"]]
     d["traks"] = [[c, s, list(es)] for c, s, es in l["traks"]]
     d["moofs"] = [list(m) for m in l["moofs"]]
@@ -442,6 +497,35 @@ def oracle_step(ctx, info, before, after, exc, expect_tags):
     return ok
 
 
+def extra_oracle(ctx, info, step, before, after, exc, ilst, log):
+    """two statements about the tag region itself, judged with the independent walker only:
+    delete replaces ilst + its adjacent free atom by the 16 bytes of the empty structure (no padding left behind);
+    the padding callback is called with (room left in the region, number of bytes behind the region)"""
+    if exc is not None:
+        return True
+    try:
+        reg = CM.region_of(before)
+    except W.Bad:
+        return True
+    ok = True
+    if step[0] == "delete" and reg is not None:
+        if len(after) != len(before) - reg[1] + 16:
+            ctx.violation("oracle", WHAT_DELPAD, dict(info, **{"class": "delete-padding"}, region=list(reg),
+                                                      removed=len(before) - len(after), expected=reg[1] - 16))
+            ok = False
+    if step[0] != "delete" and log and ilst is not None:
+        if reg is not None:
+            want = (reg[1] - (len(ilst) + 8), len(before) - (reg[0] + reg[1]))
+        else:
+            ins = insertion_region(before)
+            want = None if ins is None else (-(4 + len(HDLR) + len(ilst)), len(before) - ins[0])
+        got = tuple(log[0][:2])
+        if len(log) != 1 or (want is not None and got != want):
+            ctx.violation("oracle", WHAT_CBARGS, dict(info, **{"class": "callback-args"}, got=list(got), want=list(want or ()), calls=len(log)))
+            ok = False
+    return ok
+
+
 def run_sequence(ctx, name, layout_json, data0, steps, fresh, use_model=True):
     """apply the steps through mutagen (one live object, or a fresh object per save); oracle + correspondence per step"""
     from mutagen.mp4 import MP4
@@ -492,6 +576,7 @@ def run_sequence(ctx, name, layout_json, data0, steps, fresh, use_model=True):
             ok = after == cur
         else:
             ok = oracle_step(ctx, info, cur, after, exc, expect)
+            ok = extra_oracle(ctx, info, step, cur, after, exc, ilst, log) and ok
         # ---- (R)
         if use_model and ctx.use_model and len(cur) <= CM.LIMIT and not (step[0] == "delete" and not had_tags):
             if exc is None:
@@ -502,7 +587,7 @@ def run_sequence(ctx, name, layout_json, data0, steps, fresh, use_model=True):
             status, val, seen = CM.model_save(ctx, cur, ilst, mode)
             ctx.corr_cases += 1
             good = CM.compare(ctx, "c10 %s %r" % (name, step), status, val, after, exc, dict(info))
-            if good and log and seen != tuple(log[0][:2]):
+            if log and seen is not None and seen != tuple(log[0][:2]):
                 ctx.disagree("fam.mp4", "padding callback arguments differ", dict(info, model=seen, impl=log[0][:2]))
             if exc is None and ok:
                 CM.check_after(ctx, "c10 %s %r" % (name, step), after, dict(info))
@@ -546,7 +631,7 @@ def usable(d):
 
 
 def all_layouts(ctx, nrandom):
-    ls = regression_layouts() + core_layouts() + [random_layout(ctx.rng, i) for i in range(nrandom)]
+    ls = regression_layouts() + flag_layouts() + straddle_layouts() + core_layouts() + [random_layout(ctx.rng, i) for i in range(nrandom)]
     return [(n, with_boundary_entries(l)) for n, l in ls]
 
 
@@ -705,6 +790,8 @@ def layout_from_json(j):
     l["moofs"] = [tuple(m) for m in j["moofs"]]
     l["mdat_gen"] = tuple(j["mdat_gen"])
     l["mdat"] = mdat_bytes(*l["mdat_gen"])
+    l["mdat2_gen"] = tuple(j["mdat2_gen"]) if j.get("mdat2_gen") else None
+    l["mdat2"] = mdat_bytes(*l["mdat2_gen"]) if l["mdat2_gen"] else b""
     return l
 
 
